@@ -389,3 +389,15 @@ s("C17", "hdm-stdev-minus", HDMF, "            beta = epsilon_hat + self.signifi
 s("C17", "kdq-counter-grows-when-below", KD, "                elif input_type == \"stream\":\n                    self._drift_counter = 0\n", "                elif input_type == \"stream\":\n                    self._drift_counter = max(0, self._drift_counter - 1)\n", "TNT-threshold")
 s("C17", "eddm-warning-lt-flip", CO + "eddm.py", "            elif self._test_statistic <= self.warning_thresh:", "            elif self._test_statistic >= self.warning_thresh:", "POL")
 s("C17", "stepd-stat-uses-alpha", CO + "stepd.py", "            self._test_p = 1 - scipy.stats.norm.cdf(\n                self._test_statistic, 0, 1\n            )", "            self._test_p = 1 - scipy.stats.norm.cdf(\n                self._test_statistic, 0, 1 + self.alpha_drift\n            )", ["TNT-threshold", "POL", "ANALYSIS-ERROR"])
+
+# ---------------------------------------------------------------- C18
+s("C18", "hdm-half-batch", HDMF, "        super().update(X, None, None)\n        test_n = X.shape[0]", "        super().update(X, None, None)\n        X = X.iloc[: len(X) // 2]\n        test_n = X.shape[0]", "TNT-order")
+s("C18", "hdm-strided-histogram", HDMF, "                dataset.iloc[:, f],\n                bins=self._bins,", "                dataset.iloc[::2, f],\n                bins=self._bins,", "TNT-order")
+s("C18", "kdq-fill-head", KD, "            self._kdqtree.fill(ary, tree_id=\"test\", reset=(input_type == \"batch\"))", "            self._kdqtree.fill(ary[: len(ary) // 2], tree_id=\"test\", reset=(input_type == \"batch\"))", "TNT-order")
+s("C18", "revert-fix10", NS, "        v1, v2 = inverted_indices[: len(sample1)], inverted_indices[len(sample1) :]", "        v1, v2 = np.array_split(inverted_indices, 2)", "TNT-order")
+s("C18", "nndvi-first-rows", NV, "        test_batch = np.array(X)\n", "        test_batch = np.array(X)[:100]\n", "TNT-order")
+s("C18", "kdq-build-stop-prefix", KP, "            or np.unique(data).size <= count_ubound\n", "            or np.unique(data[: count_ubound + 1]).size <= count_ubound\n", "TNT-order")
+s("C18", "nnsp-arrival-order", NS, "        D, inverted_indices = np.unique(data, axis=0, return_inverse=True)\n        self.D = D", "        D, first_idx, inverted_indices = np.unique(data, axis=0, return_index=True, return_inverse=True)\n        D = data[np.sort(first_idx)]\n        self.D = D", "TNT-order")
+s("C18", "hdm-first-row-range", HDMF, "            mins.append(np.concatenate((reference_variable, test_variable)).min())", "            mins.append(min(reference_variable.min(), test_variable.iloc[0]))", "TNT-order")
+s("C18", "kdq-midpoint-first-row", KP, "        min_value_at_axis = np.min(data[:, axis])", "        min_value_at_axis = data[0, axis]", "TNT-order")
+b(["C18"], "hdm-shape-rows", HDMF, "        test_n = X.shape[0]", "        test_n = len(X)")
